@@ -116,11 +116,12 @@ async def scenario(cap, ws, errs, acts, drains, mode, trace=None, stats=None):
             d = sched.concretize(drains[s], 0, 2)
             if d == 2:
                 await sched.settle()
-                check()
             elif d == 1:
                 await sched.step()
             if trace is not None:
                 trace.append((what, int(d), list(inside), sem.value))
+            if d == 2:
+                check()
         if mode == 1 and stats['other_cancels'] == 0:
             raise sched.Prune()
         if mode == 2 and (stats['other_cancels'] == 0 or stats['queued_cancels'] == 0):
